@@ -76,11 +76,17 @@ def relayout(pkg: docgen.Pkg, rng: random.Random, mode: str | None = None) -> do
             return "footer"
         return "".join(c for c in leaf[:-4] if not c.isdigit())
 
+    # every part under the same leaf name in a directory of its own (round-5 seed
+    # C09-rels-index-by-basename: relationships files that differ only in their directory)
+    samename = mode is None and rng.random() < 0.3
     for name in pkg.parts:
         if not name.startswith("word/") or name in ("word/numbering.xml",):
             rename[name] = name
             continue
         leaf = name[5:]
+        if samename and leaf != "styles.xml":
+            rename[name] = f"{base}/{leaf[:-4]}/part.xml"
+            continue
         k = kind_of(leaf)
         if k not in styles:
             styles[k] = rng.choice(["same", "suffix", "prefix", "subdir", "upper"]) if leaf != "styles.xml" else "same"
@@ -123,7 +129,7 @@ def relayout(pkg: docgen.Pkg, rng: random.Random, mode: str | None = None) -> do
             ids[rid] = rid
             if ext:
                 out_rows.append((rid, typ, tgt, ext))
-            elif tgt.startswith("media/") and ("word/" + tgt) in new.binaries:
+            elif tgt.startswith(("media/", "media2/")) and ("word/" + tgt) in new.binaries:
                 # the picture moves along with the part that refers to it, so the target
                 # (which is what the text placeholder shows) stays textually the same
                 new.binaries[f"{nd}/{tgt}"] = new.binaries.pop("word/" + tgt)
@@ -133,6 +139,8 @@ def relayout(pkg: docgen.Pkg, rng: random.Random, mode: str | None = None) -> do
                 out_rows.append((rid, typ, target_for(new_part, old_abs.lstrip("/")), ext))
         new.rels[f"{nd}/_rels/{leaf}.rels"] = out_rows
     new.features.add("relayout")
+    if samename:
+        new.features.add("layout_same_leaf_names")
     return new
 
 
@@ -173,10 +181,125 @@ def eval_layout(state, arg):
 
 
 # ------------------------------------------------------------------ C11
+def snapshot_fs(top: str):
+    """(directories, {file path: bytes}) below top, as absolute paths"""
+    dirs, files = [], {}
+    for d, _sub, fnames in os.walk(top):
+        dirs.append(d)
+        for n in fnames:
+            files[os.path.join(d, n)] = open(os.path.join(d, n), "rb").read()
+    return sorted(dirs), files
+
+
+def fs_corr(model, data, top, folder, before, after):
+    """Fs.pull_image_files (model/Fs.v) <-> what /repo wrote below the scratch directory"""
+    case0, payloads = impl_pkg.model_case(data, False, True)
+    segs = lambda p: [common.S(x) for x in p.strip("/").split("/")]  # noqa: E731
+    anc = []
+    cur = top
+    while cur not in ("/", ""):
+        cur = os.path.dirname(cur)
+        if cur not in ("/", ""):
+            anc.append(cur)
+    ids = {}                      # bytes -> id (payload ids first, then fresh ones for stale files)
+
+    def bid(blob):
+        for i, pl in enumerate(payloads):
+            if pl == blob:
+                return i
+        return ids.setdefault(blob, 100000 + len(ids))
+    dirs0, files0 = before
+    case = [13, case0[3], [segs(folder)] if folder is not None else [],
+            [segs(d) for d in sorted(anc) + dirs0], [[segs(p), bid(b)] for p, b in sorted(files0.items())]]
+    out = model.run(case)
+    if out[0] != 0:
+        return {"what": "Fs.pull_image_files raised in the model", "model": repr(out)[:200]}
+    fs_after = out[1][1]
+    if not fs_after:
+        return {"what": "Fs.pull_image_files: the model predicts an OSError, /repo wrote the images", "model": repr(out)[:200]}
+    key = lambda i: impl_pkg.blob_key(payloads[i]) if i < len(payloads) else ("stale", i)  # noqa: E731
+    m_dirs = sorted("/" + "/".join(common.unS(x) for x in d) for d in fs_after[0][0])
+    m_files = {"/" + "/".join(common.unS(x) for x in p): key(i) for p, i in fs_after[0][1]}
+    dirs1, files1 = after
+    r_files = {p: key(bid(b)) for p, b in files1.items()}
+    r_dirs = sorted(set(dirs1) | set(anc))
+    if m_dirs != r_dirs:
+        return {"what": "directories after save_images differ from Fs.pull_image_files",
+                "impl": repr(sorted(set(r_dirs) - set(m_dirs)))[:200], "model": repr(sorted(set(m_dirs) - set(r_dirs)))[:200]}
+    if m_files != r_files:
+        return {"what": "files after save_images differ from Fs.pull_image_files",
+                "impl": repr(sorted(r_files.items()))[:300], "model": repr(sorted(m_files.items()))[:300]}
+    return None
+
+
+def picture_markers_oracle(data: bytes):
+    """C11, on /repo's output alone: the picture markers ----TARGET---- found in the text are exactly
+    those of the pictures whose r:embed / r:id resolves IN THE PART'S OWN relationships file
+    (duplicate_merged_cells=False, so that no cell content is copied or overwritten)."""
+    import re
+
+    from docx2python import docx2python
+    from docx2python.docx_reader import DocxReader
+    from lxml import etree
+
+    z = zipfile.ZipFile(io.BytesIO(data))
+    names = set(z.namelist())
+
+    def own_rels(path):
+        d, _, leaf = path.rpartition("/")
+        rp = (d + "/" if d else "") + "_rels/" + leaf + ".rels"
+        out = {}
+        if rp in names:
+            for r in etree.fromstring(z.read(rp)):
+                if isinstance(r.tag, str):
+                    out[r.get("Id")] = (r.get("Type", "").rsplit("/", 1)[-1], r.get("Target"))
+        return out
+
+    all_targets = set()
+    for n in names:
+        if n.endswith(".rels"):
+            for r in etree.fromstring(z.read(n)):
+                if isinstance(r.tag, str) and r.get("Type", "").endswith("/image"):
+                    all_targets.add(r.get("Target"))
+    rd = DocxReader(io.BytesIO(data))
+    try:
+        parts = [f.path for t in ("officeDocument", "header", "footer", "footnotes", "endnotes")
+                 for f in rd.files_of_type(t)]
+    finally:
+        rd.close()
+    expected = set()
+    for path in parts:
+        if path not in names:
+            continue
+        rels = own_rels(path)
+        root = etree.fromstring(z.read(path))
+        for el in root.iter():
+            if not isinstance(el.tag, str):
+                continue
+            q = etree.QName(el)
+            rid = None
+            if q.localname == "blip":
+                rid = next((v for k, v in el.attrib.items() if k.endswith("}embed")), None)
+            elif q.localname == "imagedata":
+                rid = next((v for k, v in el.attrib.items() if k.endswith("}id")), None)
+            if rid is not None and rid in rels:
+                expected.add(rels[rid][1])
+    d = docx2python(io.BytesIO(data), duplicate_merged_cells=False)
+    try:
+        text = d.text
+    finally:
+        d.close()
+    seen = {m for m in re.findall(r"----(.+?)----", text) if m in all_targets}
+    extra = seen - expected
+    if extra:
+        return f"picture markers {sorted(extra)} appear although no picture of a content part resolves to them in its own relationships"
+    return None
+
+
 def eval_images(state, arg):
     stream, sub = arg
     rng = random.Random(sub)
-    kn = docgen.Knobs(images=0.6, max_blocks=4)
+    kn = docgen.Knobs(images=0.6, max_blocks=4, image_same_basename=0.05)
     pkg = docgen.gen_package(random.Random(sub), kn)
     data = pkg.to_bytes()
     res = {"stream": stream, "sub": sub, "features": sorted(pkg.features), "fails": [], "corr": None,
@@ -190,6 +313,13 @@ def eval_images(state, arg):
             (impl, mod), = observe_all(data, state["model"], [(False, True)])
             if mod is not None and impl[4] != mod[4]:
                 res["corr"] = {"what": "images mapping differs", "impl": repr(impl[4])[:200], "model": repr(mod[4])[:200]}
+            elif mod is not None and content_only(impl) != content_only(mod):
+                # the picture markers in the text (C11: referenced in place, unresolved pictures skipped)
+                res["corr"] = {"what": "extracted content of a picture-rich package differs from the model's",
+                               "impl": repr(content_only(impl))[:200], "model": repr(content_only(mod))[:200]}
+            bad = picture_markers_oracle(data)
+            if bad:
+                res["fails"].append(["pictures_in_place", bad])
             # expected mapping from the archive itself
             z = zipfile.ZipFile(io.BytesIO(data))
             from docx2python.docx_reader import DocxReader
@@ -215,6 +345,7 @@ def eval_images(state, arg):
                         res["features"].append("stale_file")
             res["features"].append("folder:" + kind)
             before = set(os.listdir(tmp))
+            fs_before = snapshot_fs(tmp)
             if kind == "ctor":
                 d = docx2python(io.BytesIO(data), folder)
             else:
@@ -241,6 +372,8 @@ def eval_images(state, arg):
                         for n in listing:
                             if n in exp and open(os.path.join(folder, n), "rb").read() != exp[n]:
                                 res["fails"].append(["images_written", f"{n} written with different bytes"])
+            if state.get("model") is not None and res["corr"] is None:
+                res["corr"] = fs_corr(state["model"], data, tmp, folder, fs_before, snapshot_fs(tmp))
             stray = set(os.listdir(tmp)) - before - {"e", "n1", "c"}
             if stray:
                 res["fails"].append(["images_written", f"unexpected files written: {sorted(stray)}"])
